@@ -51,9 +51,12 @@ func (m *Modset) addField(t types.Type, isMap, fresh bool, field int, root ssa.V
 		m.cells[key] = e
 	}
 	if !fresh {
-		if a, ok := root.(*ssa.Alloc); ok {
+		switch a := root.(type) {
+		case *ssa.Alloc:
 			e.allocRoots[a] = true
-		} else {
+		case *ssa.MakeMap:
+			e.allocRoots[a] = true
+		default:
 			e.otherRoots = true
 		}
 	}
@@ -178,7 +181,7 @@ func (eng *Engine) instrMods(fn *ssa.Function, ins ssa.Instruction, region map[*
 	case *ssa.MakeMap:
 		m.add(x.Type(), true, true)
 	case *ssa.MapUpdate:
-		m.add(x.Map.Type(), true, isFreshMap(x.Map, region))
+		m.addField(x.Map.Type(), true, isFreshMap(x.Map, region), -1, x.Map)
 	case *ssa.Convert:
 		if isByteSlice(x.Type()) {
 			// []byte(s) allocates
